@@ -34,7 +34,45 @@ func (c C12Case) Brief() any {
 	return out
 }
 
-const evilMark = "EVIL"
+// Marks the adversary writes. They are typed: what is written over an origin is
+// a well-formed origin no configuration lists, over a method a valid method
+// name, over a header name a valid header name, so that a defect which makes
+// the middleware trust a scribbled-over slot (a memo, a set sharing the
+// caller's backing array) shows as a changed answer to a probe that mentions
+// the mark (see c12Suite).
+const (
+	evilMark   = "EVIL"
+	evilOrigin = "https://evil.example"
+	evilMethod = "EVILMETHOD"
+	evilHeader = "x-evil"
+)
+
+func markFor(key string) string {
+	switch http.CanonicalHeaderKey(key) {
+	case hOrigin, hACAO:
+		return evilOrigin
+	case hACRM, hACAM:
+		return evilMethod
+	case hACRH, hACAH, hACEH:
+		return evilHeader
+	}
+	return evilMark
+}
+
+// c12Suite is the probe suite of a configuration plus requests that mention the marks.
+func c12Suite(c Cfg) []Req {
+	suite := Suite(c)
+	ok := "https://any.example"
+	if allowed, _ := originPools(c); len(allowed) > 0 {
+		ok = allowed[0]
+	}
+	return append(suite,
+		Actual("GET", evilOrigin), Actual("PUT", evilOrigin), Actual("OPTIONS", evilOrigin),
+		Preflight(evilOrigin, "GET"), Preflight(evilOrigin, "PUT", evilHeader), Preflight(evilOrigin, evilMethod),
+		Preflight(ok, evilMethod), Preflight(ok, "GET", evilHeader), Preflight(ok, evilMethod, evilHeader),
+		Actual("GET", evilMark), Preflight(evilMark, "GET"), Preflight(ok, evilMark), Preflight(ok, "GET", "evil"),
+	)
+}
 
 // roomy copies a string list into a slice with spare capacity, as a caller
 // who built the list with append might pass it.
@@ -54,10 +92,12 @@ func roomyConfig(c Cfg) *cors.Config {
 }
 
 // scribble overwrites every element of s, including its spare capacity.
-func scribble(s []string) {
+func scribble(s []string) { scribbleWith(s, evilMark) }
+
+func scribbleWith(s []string, mark string) {
 	full := s[:cap(s)]
 	for i := range full {
-		full[i] = evilMark
+		full[i] = mark
 	}
 }
 
@@ -65,11 +105,12 @@ func scribbleConfig(c *cors.Config) {
 	if c == nil {
 		return
 	}
-	for _, s := range [][]string{c.Origins, c.Methods, c.RequestHeaders, c.ResponseHeaders} {
-		scribble(s)
-	}
-	c.Origins = append(c.Origins, "https://evil.example")
-	c.Methods = append(c.Methods, "EVILMETHOD")
+	scribbleWith(c.Origins, evilOrigin)
+	scribbleWith(c.Methods, evilMethod)
+	scribbleWith(c.RequestHeaders, "X-Evil")
+	scribbleWith(c.ResponseHeaders, "X-Evil")
+	c.Origins = append(c.Origins, evilOrigin)
+	c.Methods = append(c.Methods, evilMethod)
 	c.RequestHeaders = append(c.RequestHeaders, "X-Evil")
 	c.ResponseHeaders = append(c.ResponseHeaders, "X-Evil")
 	c.Credentialed = !c.Credentialed
@@ -78,6 +119,7 @@ func scribbleConfig(c *cors.Config) {
 
 type c12MW struct {
 	m        *cors.Middleware
+	srv      *Server        // ONE wrapped handler per middleware, kept across reconfigurations, shared by probes, bursts and evil requests
 	passed   []*cors.Config // configurations handed to NewMiddleware/Reconfigure
 	fetched  []*cors.Config // results of Config()
 	suite    []Req
@@ -95,13 +137,13 @@ func (w *c12World) evilHandler() http.Handler {
 	return http.HandlerFunc(func(rw http.ResponseWriter, r *http.Request) {
 		for k, vs := range r.Header {
 			w.retained = append(w.retained, vs)
-			scribble(vs)
+			scribbleWith(vs, markFor(k))
 			r.Header[k] = append(vs[:cap(vs)], evilMark)
 		}
 		h := rw.Header()
 		for k, vs := range h {
 			w.retained = append(w.retained, vs)
-			scribble(vs)
+			scribbleWith(vs, markFor(k))
 			h[k] = append(vs[:cap(vs)], evilMark)
 		}
 		h.Set("X-Evil", evilMark)
@@ -125,7 +167,7 @@ func (w *c12World) invariant(step int, what string, rec *Recorder) *Disc {
 			if step%2 == 1 {
 				idx = n - 1 - idx
 			}
-			got[idx] = Do(mw.m.Wrap, mw.suite[idx], nil).Sig()
+			got[idx] = Do(mw.srv.Wrap, mw.suite[idx], nil).Sig()
 		}
 		rec.Eval(len(got))
 		if j := firstDiff(mw.baseline, got); j >= 0 {
@@ -235,9 +277,11 @@ func c12Check(c C12Case, rec *Recorder) *Disc {
 					continue
 				}
 			}
-			n := &c12MW{m: m, cfg: *s.Cfg, suite: Suite(*s.Cfg)}
+			n := &c12MW{m: m, cfg: *s.Cfg, suite: c12Suite(*s.Cfg)}
 			if mw != nil && s.Op == "reconfigure" {
-				n.passed, n.fetched = mw.passed, mw.fetched
+				n.passed, n.fetched, n.srv = mw.passed, mw.fetched, mw.srv
+			} else {
+				n.srv = NewServer(m.Wrap)
 			}
 			n.passed = append(n.passed, passed)
 			n.baseline = SuiteSig(m.Wrap, n.suite)
@@ -280,7 +324,7 @@ func c12Check(c C12Case, rec *Recorder) *Disc {
 			if err != nil {
 				return discf("step %d: edited configuration %+v accepted by Reconfigure but rejected by NewMiddleware: %v", i, *s.Cfg, err)
 			}
-			n := &c12MW{m: mw.m, cfg: *s.Cfg, suite: Suite(*s.Cfg), passed: mw.passed, fetched: mw.fetched}
+			n := &c12MW{m: mw.m, cfg: *s.Cfg, suite: c12Suite(*s.Cfg), passed: mw.passed, fetched: mw.fetched, srv: mw.srv}
 			n.baseline = SuiteSig(fresh.Wrap, n.suite)
 			n.cfgJSON = cfgJSON(fresh.Config())
 			w.mws[s.Idx] = n
@@ -306,7 +350,7 @@ func c12Check(c C12Case, rec *Recorder) *Disc {
 			if mw == nil {
 				continue
 			}
-			h := mw.m.Wrap(w.evilHandler())
+			h := mw.srv.Wrap(w.evilHandler())
 			for _, r := range s.Reqs {
 				h.ServeHTTP(NewRec(nil), r.HTTP())
 				rec.Eval(1)
@@ -319,7 +363,7 @@ func c12Check(c C12Case, rec *Recorder) *Disc {
 				continue
 			}
 			for _, r := range s.Reqs {
-				Do(mw.m.Wrap, r, nil)
+				Do(mw.srv.Wrap, r, nil)
 				rec.Eval(1)
 			}
 		case "scribble_retained":
@@ -345,7 +389,7 @@ func TestC12(t *testing.T) {
 	Prop[C12Case]{ID: "C12", Gen: c12Gen, Check: c12Check,
 		Rule: "generator: history of 3-15 steps over up to 3 live middlewares: create / reconfigure from a Config whose slices have spare capacity; edit the previously passed Config IN PLACE (same backing arrays) and Reconfigure with it, after which the middleware must behave like a fresh one built from the edited configuration; scribble over every slice (and spare capacity) of every Config ever passed in; fetch Config() and scribble over every result ever fetched; " +
 			"evil requests (any kind) through a wrapped handler that overwrites in place, re-slices to capacity and appends to every value slice reachable from r.Header and w.Header(), deletes/sets keys and keeps the slices; scribble over the retained slices later; benign request bursts. " +
-			"Invariant after every step, for every live middleware: answers to its ~200-request suite (fresh requests, benign handler, replayed in a different rotation/direction at every step so that history dependence shows) and Config() equal the baseline recorded right after creation. " +
+			"Every middleware serves probes, bursts and evil requests through ONE wrapped handler kept across its reconfigurations; the baseline is recorded through freshly wrapped handlers. The adversary's marks are typed (a well-formed unlisted origin over origins, a method name over methods, a header name over header names) and the suite contains probes mentioning them. Invariant after every step, for every live middleware: answers to its ~200-request suite (fresh requests, benign handler, replayed in a different rotation/direction at every step so that history dependence shows) and Config() equal the baseline recorded right after creation. " +
 			"non-trivial = history containing a scribble or an evil non-preflight request followed by a probe; distinct by history.",
 		Assumptions: []string{"slices reachable only from preflight responses are not attacked (the wrapped handler never runs there; installing shared constants on that path is the documented design)",
 			"package-level state corrupted by a defect persists for the rest of the process, so after a first failure shrinking may report the unshrunk history"}}.Run(t)
